@@ -486,10 +486,16 @@ pub fn run_history(g: &Gillham, col: &mut Collector, h: &History, upto: usize) -
                 let before: std::collections::BTreeMap<u32, String> = planes.iter().map(|(k, v)| (icao_u32(k), format!("{v:?}"))).collect();
                 let r = mon::guarded(|| planes.prune(*t));
                 if let Err((loc, msg)) = r {
+                    // expiry that panics removes nothing: the finding belongs to C15 (prune is not one of the
+                    // per-frame operations C01 lists, and C01's own workload never prunes)
+                    col.add(Finding { prop: "C15".into(), sig: format!("C15|panic_prune|{loc}"), detail: format!("prune({t}) panicked: {msg}"), input: history_json(h) });
                     col.add(Finding { prop: "C01".into(), sig: format!("C01|panic_prune|{loc}"), detail: msg, input: history_json(h) });
                     return None;
                 }
-                let snap = snapshot(&planes);
+                let snap = match views_guarded(col, h, &planes, true, idx) {
+                    Some(s) => s,
+                    None => return None,
+                };
                 dis = model.prune(*t, &snap);
                 for (k, v) in planes.iter() {
                     let a = icao_u32(k);
@@ -514,7 +520,13 @@ pub fn run_history(g: &Gillham, col: &mut Collector, h: &History, upto: usize) -
                 let added = match res {
                     Ok(a) => a == Added::Yes,
                     Err((loc, msg)) => {
-                        col.add(Finding { prop: "C01".into(), sig: format!("C01|panic_tracker_action|{loc}"), detail: msg, input: history_json(h) });
+                        // a frame the tracker panics on is a frame it did not account for: besides C01
+                        // the finding is raised for whichever tracker property is being checked
+                        let hj = history_json(h);
+                        for p in ["C12", "C13", "C14", "C15"] {
+                            col.add(Finding { prop: p.into(), sig: format!("{p}|panic_tracker_action|{loc}"), detail: format!("Airplanes::action panicked at step {idx} ({}): {msg}", hex(m)), input: hj.clone() });
+                        }
+                        col.add(Finding { prop: "C01".into(), sig: format!("C01|panic_tracker_action|{loc}"), detail: msg, input: hj });
                         return None;
                     }
                 };
@@ -535,7 +547,10 @@ pub fn run_history(g: &Gillham, col: &mut Collector, h: &History, upto: usize) -
                     }
                     dis = d;
                 } else {
-                    let snap = snapshot_opt(&planes, h.kind != "marathon" || idx % 64 == 0 || idx + 1 == h.ops.len());
+                    let snap = match views_guarded(col, h, &planes, h.kind != "marathon" || idx % 64 == 0 || idx + 1 == h.ops.len(), idx) {
+                        Some(s) => s,
+                        None => return None,
+                    };
                     dis = model.step(&ev, added, &snap);
                 }
                 if let Some(b) = before_non_es {
@@ -595,6 +610,21 @@ pub fn run_history(g: &Gillham, col: &mut Collector, h: &History, upto: usize) -
     col.count("model_duplicate_reports", st.duplicates);
     col.count("model_readded_after_expiry", st.readded);
     Some((planes, processed))
+}
+
+/// Snapshot of records and derived views; a view that panics (aircraft_details, all_position,
+/// Display of the tracker) is a finding, not a crash of the harness.
+fn views_guarded(col: &mut Collector, h: &History, planes: &Airplanes, views: bool, idx: usize) -> Option<Snapshot> {
+    match mon::guarded(|| snapshot_opt(planes, views)) {
+        Ok(s) => Some(s),
+        Err((loc, msg)) => {
+            let mut hj = history_json(h);
+            hj["failing_step"] = json!(idx);
+            col.add(Finding { prop: "C14".into(), sig: format!("C14|derived_view_panics|{loc}"), detail: format!("step {idx}: aircraft_details / all_position / Display of the tracker panicked: {msg}"), input: hj.clone() });
+            col.add(Finding { prop: "C01".into(), sig: format!("C01|panic_tracker_views|{loc}"), detail: msg, input: hj });
+            None
+        }
+    }
 }
 
 fn masked_debug(p: &Airplanes, addr: u32) -> Option<String> {
